@@ -10,6 +10,7 @@ from sympy.printing.printer import Printer
 
 from .symbols import DimensionSymbol, next_name
 from ..dimensions.collect_quantity import collect_quantity_factor_and_dimension
+from ..dimensions.miscellaneous import is_any_dimension
 from ..dimensions.dimensions import dimension_to_si_unit  # to avoid cyclic import
 
 
@@ -94,7 +95,12 @@ class Quantity(DimensionSymbol, SymQuantity):  # type: ignore[misc]  # pylint: d
 
 # Allows for some SymPy comparisons, eg Piecewise function
 @dispatch(Quantity, Quantity)  # type: ignore[misc]
-def _eval_is_ge(lhs: Quantity, rhs: Quantity) -> bool:
+def _eval_is_ge(lhs: Quantity, rhs: Quantity) -> Optional[bool]:
+    # quantities of inequivalent dimensions are not comparable: leave the relation undecided
+    # (zero and infinite values are compatible with any dimension)
+    if not (is_any_dimension(lhs.scale_factor) or is_any_dimension(rhs.scale_factor) or
+            SI.get_dimension_system().equivalent_dims(lhs.dimension, rhs.dimension)):
+        return None
     return scale_factor(lhs) >= scale_factor(rhs)
 
 
